@@ -667,6 +667,14 @@ Proof.
     intros; rewrite ?andb_false_r in *; try discriminate.
 Qed.
 
+Lemma rc_open_refused : forall I c x, RC I c x -> rc_ok I c x EOpenRefused.
+Proof.
+  intros I c x H. unfold rc_ok. cbn [conn_step].
+  destruct (negb (cc_dead c) && (active_count (cc_streams c) <? cc_max_streams c) && (cc_next_id c <? 2147483647)); [|exact H].
+  cbn [fst snd fold_left]. dRC H. unfold RC. cbn. repeat split; auto; try lia.
+  eapply desc_weaken; [exact Cdesc|lia].
+Qed.
+
 Theorem rc_step : forall I c x e, RC I c x -> rc_ok I c x e.
 Proof.
   intros I c x e H. destruct e.
@@ -683,4 +691,5 @@ Proof.
   - apply rc_app_read; assumption.
   - apply rc_app_close; assumption.
   - apply rc_peer_headers; assumption.
+  - apply rc_open_refused; assumption.
 Qed.
